@@ -4,7 +4,10 @@ import (
 	"fmt"
 	"go/token"
 	"go/types"
+	"os"
+	"regexp"
 	"sort"
+	"strconv"
 	"strings"
 
 	"golang.org/x/tools/go/ssa"
@@ -377,6 +380,67 @@ func ruleC10(w *World) {
 	d := w.dkg("C10.R1")
 	if d == nil {
 		return
+	}
+	// R7: a refusal keeps its class through every relay
+	w.floor("C10.R7", 1) // sites merge when the relays share a wrapping helper
+	w.ruleErrorClassKept("C10.R7", d)
+	// R6: the per-dealer instances of Joint-Feldman and the joint object have ONE common state (size, threshold, own
+	// index, running flag): every pointer to the common-state struct stored into an instance built by the joint object is
+	// the joint object's own.  The lock-step lemma (R3) and the refusal rules rest on it: with private copies an instance
+	// can stay `running` after a failed Start and refuse the next one for ever.
+	w.floor("C10.R6", 1)
+	{
+		ea := w.effects()
+		n := 0
+		for _, fn := range w.srcFuncs(rootPath) {
+			if isTestFile(w, fn.Pos()) || fn.Signature.Recv() == nil {
+				continue
+			}
+			if rt, _ := deref(fn.Signature.Recv().Type()).(*types.Named); rt != d.joint {
+				continue
+			}
+			instrs(fn, func(ins ssa.Instruction) {
+				st, ok := ins.(*ssa.Store)
+				if !ok {
+					return
+				}
+				pt, ok := st.Val.Type().Underlying().(*types.Pointer)
+				if !ok || !types.Identical(pt.Elem(), d.common) {
+					return
+				}
+				if _, isFA := st.Addr.(*ssa.FieldAddr); !isFA {
+					return
+				}
+				n++
+				// the value stored is the receiver's own pointer: a load of the receiver's field of that type (followed
+				// through the parameters of instance-building helpers to what the joint method passes)
+				okShared := false
+				v := stripConv(st.Val)
+				for i := 0; i < 4; i++ {
+					if up := enteringArg(v); up != nil {
+						v = stripConv(up)
+						continue
+					}
+					break
+				}
+				if ld, ok := v.(*ssa.UnOp); ok && ld.Op == token.MUL {
+					if fa, ok := ld.X.(*ssa.FieldAddr); ok && fa.X == ssa.Value(fn.Params[0]) {
+						okShared = true
+					}
+				}
+				what := "a pointer that is not the joint object's own"
+				for _, r := range ea.roots(st.Val, fn, 0) {
+					if r.kind == rkFresh {
+						what = "a pointer to a fresh copy of the common state"
+					}
+				}
+				w.check(okShared, "C10.R6", fmt.Sprintf("%s/common-state:%s", fnKey(fn), render(st.Addr)), st.Pos(), "the instance shares the joint object's common state",
+					"the per-dealer instance is given "+what+" (`"+render(st.Val)+"`): its running flag / parameters no longer move together with the joint object's")
+			})
+		}
+		if n == 0 {
+			w.undecided("C10.R6", "joint/common-state", token.NoPos, "no instance construction found in the Joint-Feldman methods")
+		}
 	}
 	for name, ts := range d.systems(w) {
 		isQual := name == "qual"
@@ -887,6 +951,76 @@ func (w *World) ruleFirstReceiptConsumed(rule string, d *dkgAnchors, sys map[str
 	}
 }
 
+
+// ruleStateStoresLand: every assignment to a protocol-state flag made in a method of the DKG state types reaches the
+// protocol object: the address written is rooted at the receiver (through pointers / slice elements), not at a local
+// copy of an instance (`for _, inst := range s.instances { inst.flag = true }`, a value receiver, `x := s.inst[i]; x.f = …`).
+// A verdict written to a copy is lost: later steps (key aggregation, End) act as if it had never been reached.
+func (w *World) ruleStateStoresLand(rule string, d *dkgAnchors) {
+	ea := w.effects()
+	isState := map[*types.Named]bool{d.common: true, d.plain: true, d.qual: true, d.joint: true}
+	n := 0
+	for _, fn := range w.srcFuncs(rootPath) {
+		if isTestFile(w, fn.Pos()) || fn.Signature.Recv() == nil {
+			continue
+		}
+		rt, _ := deref(fn.Signature.Recv().Type()).(*types.Named)
+		if rt == nil || !isState[rt] {
+			continue
+		}
+		instrsFlat(fn, func(ins ssa.Instruction) {
+			st, ok := ins.(*ssa.Store)
+			if !ok {
+				return
+			}
+			fa, ok := st.Addr.(*ssa.FieldAddr)
+			if !ok {
+				return
+			}
+			fld := addrField(st.Addr)
+			if fld == nil || !isBool(fld.Type()) {
+				return
+			}
+			if _, tracked := d.m.tracked[fld]; !tracked {
+				return
+			}
+			n++
+			lost := ""
+			roots := ea.roots(fa.X, fn, 0)
+			allFresh := len(roots) > 0
+			for _, r := range roots {
+				if r.kind != rkFresh {
+					allFresh = false
+				}
+				if r.kind == rkParam && r.param >= 0 && r.param < len(fn.Params) {
+					if _, isPtr := fn.Params[r.param].Type().Underlying().(*types.Pointer); !isPtr {
+						if _, isStruct := fn.Params[r.param].Type().Underlying().(*types.Struct); isStruct {
+							lost = "the receiver / parameter `" + fn.Params[r.param].Name() + "` is a struct value (a copy)"
+						}
+					}
+				}
+			}
+			if allFresh {
+				lost = "`" + render(fa.X) + "` is a local copy of the instance"
+				// an object under construction is not a copy: the local is later read as a whole (stored into the protocol
+				// object, returned, handed on)
+				if al, ok := fa.X.(*ssa.Alloc); ok && al.Referrers() != nil {
+					for _, ref := range *al.Referrers() {
+						if ld, ok := ref.(*ssa.UnOp); ok && ld.Op == token.MUL && ld.X == ssa.Value(al) && (instrDominatesFlat(st, ld) || st.Block() == ld.Block()) {
+							lost = ""
+						}
+					}
+				}
+			}
+			w.check(lost == "", rule, fmt.Sprintf("%s/state-store:%s", fnKey(fn), fld.Name()), st.Pos(), "flag written into the protocol object",
+				fmt.Sprintf("the assignment %s = %s is made on a copy (%s): the protocol object keeps its old value, so a verdict reached here is lost for everything that follows", render(st.Addr), render(st.Val), lost))
+		})
+	}
+	if n == 0 {
+		w.undecided(rule, "state-stores", token.NoPos, "no assignment to a protocol-state flag found")
+	}
+}
+
 // ---------------- C08 ----------------
 
 func ruleC08(w *World) {
@@ -901,6 +1035,9 @@ func ruleC08(w *World) {
 	if d == nil {
 		return
 	}
+	// R16: every report of a peer is justified by something an honest sender never does
+	w.floor("C08.R16", 8)
+	w.ruleFlagCauses("C08.R16", d)
 	sys := d.systems(w)
 	complaintTag, _ := w.constInt(rootPath, "feldmanVSSComplaint")
 	ansTag, _ := w.constInt(rootPath, "feldmanVSSComplaintAnswer")
@@ -929,6 +1066,10 @@ func ruleC08(w *World) {
 		}
 		w.check(badT == nil && seenOnce, "C08.R1", "qual/complaint-broadcast-at-most-once", ts.methods["HandlePrivateMsg"].Pos(), fmt.Sprintf("complaint counter never reaches 2 in %d reachable states / %d transitions", len(ts.states), n), msg+map[bool]string{true: "", false: " (no state with one complaint reached: broadcaster not recognised)"}[seenOnce])
 	}
+	// R15: Joint-Feldman hands every message to every per-dealer instance unconditionally (= C07.R9): a message is not
+	// dropped because of what this node concluded about its sender in another instance
+	w.floor("C08.R15", 4)
+	w.ruleJointDispatch("C08.R15", d)
 	// R12: only the first share / vector is ever processed (= C07.R12)
 	w.floor("C08.R12", 4)
 	w.ruleFirstReceiptConsumed("C08.R12", d, sys)
@@ -1404,9 +1545,15 @@ func ruleC07(w *World) {
 	w.floor("C07.R11", 10)
 	w.ruleDisqualificationRules("C07.R11", d)
 	sys := d.systems(w)
+	// R15: verdicts and flags are written into the protocol objects, never into copies of them
+	w.floor("C07.R15", 10)
+	w.ruleStateStoresLand("C07.R15", d)
 	// R13: shape of the dealer (share of participant j is P(j+1), goes to slot / recipient j, all participants covered)
 	w.floor("C07.R13", 8)
 	w.ruleDealingShape("C07.R13", d.m.idxOwn)
+	// R16: one reader for every scalar taken from a message, in every arrival order
+	w.floor("C07.R16", 4)
+	w.ruleScalarIntake("C07.R16", d)
 	// R12: only the first share / vector is ever processed (a later one cannot replace a corrected share)
 	w.floor("C07.R12", 4)
 	w.ruleFirstReceiptConsumed("C07.R12", d, sys)
@@ -1747,14 +1894,32 @@ func ruleC07(w *World) {
 				conds = append(conds, render(ifi.Cond))
 			}
 		}
+		// the counter is found by role, not by name: the loop-carried variable that is incremented by one in the loop
+		// over the instances (the branch on the instance's verdict) and compared with the threshold afterwards
 		has1, has2 := false, false
+		re1 := regexp.MustCompile(`^\((φ\w+@\d+) > ` + regexp.QuoteMeta(s) + `\.dkgCommon\.threshold\)$`)
+		re2 := regexp.MustCompile(`^\(\(` + regexp.QuoteMeta(s) + `\.dkgCommon\.size - (φ\w+@\d+)\) <= ` + regexp.QuoteMeta(s) + `\.dkgCommon\.threshold\)$`)
+		c1, c2 := "", ""
 		for _, c := range conds {
-			if strings.HasSuffix(c, " > "+s+".dkgCommon.threshold)") && strings.Contains(c, "disqualifiedTotal") && !strings.Contains(c, " - ") {
-				has1 = true
+			if m := re1.FindStringSubmatch(c); m != nil {
+				has1, c1 = true, m[1]
 			}
-			if strings.HasPrefix(c, "(("+s+".dkgCommon.size - ") && strings.HasSuffix(c, ") <= "+s+".dkgCommon.threshold)") {
-				has2 = true
+			if m := re2.FindStringSubmatch(c); m != nil {
+				has2, c2 = true, m[1]
 			}
+		}
+		if has1 && has2 && c1 != c2 {
+			has1 = false
+		}
+		if has1 {
+			// incremented by exactly one, somewhere in End
+			inc := false
+			instrsFlat(end, func(ins ssa.Instruction) {
+				if b, ok := ins.(*ssa.BinOp); ok && b.Op == token.ADD && render(b.X) == c1 && render(b.Y) == "1" {
+					inc = true
+				}
+			})
+			has1 = inc
 		}
 		_ = found
 		w.check(has1 && has2, "C07.R6", fnKey(end)+"/failure-rule", end.Pos(), "fails iff disqualified > t or n − disqualified ≤ t", fmt.Sprintf("Joint-Feldman failure rule changed: expected tests `disq > t` and `n − disq ≤ t`, found %v", conds))
@@ -1968,5 +2133,502 @@ func (w *World) ruleAnswerWrittenOnce(rule string, qualFns map[string]*ssa.Funct
 	}
 	if nans == 0 {
 		w.undecided(rule, "answer-writes", token.NoPos, "no write of a complaint answer found")
+	}
+}
+
+// ruleScalarIntake: every scalar a DKG participant takes from a message — a private share, a complaint answer, in
+// whatever order the messages arrive — is read by the validating reader (canonical, non-zero: the reader that reaches
+// C.Fr_star_read_bytes) and its verdict is looked at. Two arrival orders of the same bytes must take the same decision;
+// a branch that reads them with a reducing / non-failing map (mapToFr, Fr_read_bytes) accepts what its sibling rejects,
+// and participants that saw the messages in different orders disagree on the dealer.
+func (w *World) ruleScalarIntake(rule string, d *dkgAnchors) {
+	var scalarT types.Type
+	if p := w.ByPath[rootPath]; p != nil {
+		if tn, ok := p.Types.Scope().Lookup("scalar").(*types.TypeName); ok {
+			scalarT = tn.Type()
+		}
+	}
+	if scalarT == nil {
+		w.undecided(rule, "anchor:scalar", token.NoPos, "unresolved anchor: scalar type")
+		return
+	}
+	isScalarPtr := func(t types.Type) bool {
+		p, ok := t.Underlying().(*types.Pointer)
+		return ok && types.Identical(p.Elem(), scalarT)
+	}
+	isBytes := func(t types.Type) bool {
+		s, ok := t.Underlying().(*types.Slice)
+		if !ok {
+			return false
+		}
+		b, ok := s.Elem().Underlying().(*types.Basic)
+		return ok && b.Kind() == types.Uint8
+	}
+	validating := map[*ssa.Function]bool{}
+	isValidating := func(f *ssa.Function) bool {
+		if v, ok := validating[f]; ok {
+			return v
+		}
+		v := len(cgoCallsDeep(w, f, "Fr_star_read_bytes", 2)) > 0 && len(cgoCallsDeep(w, f, "Fr_read_bytes", 2)) == 0 && len(cgoCallsDeep(w, f, "map_to_Fr_star", 2)) == 0
+		validating[f] = v
+		return v
+	}
+	n := 0
+	for _, fn := range w.srcFuncs(rootPath) {
+		if fn.Signature.Recv() == nil || isTestFile(w, fn.Pos()) {
+			continue
+		}
+		rt := deref(fn.Signature.Recv().Type())
+		if !(types.Identical(rt, d.plain) || types.Identical(rt, d.qual)) {
+			continue
+		}
+		// only the intake side: functions that have a []byte parameter (the message)
+		hasMsg := false
+		for _, p := range fn.Params[1:] {
+			if isBytes(p.Type()) {
+				hasMsg = true
+			}
+		}
+		if !hasMsg {
+			continue
+		}
+		seen := map[string]int{}
+		instrsFlat(fn, func(ins ssa.Instruction) {
+			c, ok := ins.(*ssa.Call)
+			if !ok {
+				return
+			}
+			callee := c.Call.StaticCallee()
+			if callee == nil || !inModule(callee) || callee.Signature.Params().Len() != 2 || len(c.Call.Args) != 2 {
+				return
+			}
+			if !isScalarPtr(callee.Signature.Params().At(0).Type()) || !isBytes(callee.Signature.Params().At(1).Type()) {
+				return
+			}
+			n++
+			dst := render(c.Call.Args[0])
+			seen[dst]++
+			key := fmt.Sprintf("%s/scalar-intake:%s#%d", fnKey(fn), dst, seen[dst])
+			if !isValidating(callee) {
+				w.viol(rule, key, c.Pos(), fmt.Sprintf("%s reads a scalar received in a message into `%s` with %s, which is not the validating reader (canonical and non-zero, C.Fr_star_read_bytes): the same bytes are rejected where the sibling branches / the other arrival order read them strictly, so honest participants that saw the messages in different orders reach different verdicts on the dealer", fn.Name(), dst, callee.Name()))
+				return
+			}
+			// the reader's verdict is looked at
+			used := false
+			for _, r := range *c.Referrers() {
+				if b, ok := r.(*ssa.BinOp); ok && (b.Op == token.NEQ || b.Op == token.EQL) {
+					for _, r2 := range *b.Referrers() {
+						if _, ok := r2.(*ssa.If); ok {
+							used = true
+						}
+					}
+				}
+				if _, ok := r.(*ssa.Return); ok {
+					used = true
+				}
+			}
+			w.check(used, rule, key, c.Pos(), "received scalar read by the validating reader, its error decides", fmt.Sprintf("%s ignores the verdict of %s on the received scalar `%s`", fn.Name(), callee.Name(), dst))
+		})
+	}
+	if n == 0 {
+		w.undecided(rule, "anchor:scalar-intake", token.NoPos, "no scalar intake site found in the DKG state types")
+	}
+}
+
+// flagCauses: what justifies reporting a peer to the processor (FlagMisbehavior). Each is something an honest sender
+// never produces under any delivery order inside a round: a repeated message of a kind it sends once (the receipt
+// flag / record of that kind is already set), a message after the round's timeout, a message of the wrong size or
+// with the wrong tag, a value the validating reader refuses, a share that fails the check against the dealer's own
+// vector, a complaint naming someone who is not the dealer; and, in a timeout handler, a message that did not come.
+var flagCausePatterns = []string{
+	`Received == true$`, `\.received == true$`, // duplicates
+	`Timeout == true$`, // late
+	`len\([^()]*(\[[^\]]*\])?\) != `, ` != len\(`, `^len\(.*\) == 0$`, // sizes
+	`\[0\] != \d+$`, // wrong tag
+	`^[rR]ead\w*\(.*\) != nil$`, // refused by a validating reader
+	`[vV]erify\w*\(.*\) == false$`, `[cC]heck\w*\(.*\) == true$`, // failed share / answer check
+	` != .*dealerIndex$`, `dealerIndex != `, // wrong role
+	` >= .*size$`, // index out of range
+}
+
+var helperResultFact = regexp.MustCompile(`^(?:[\w.\[\]φ@]+\.)?(\w+)\((.*)\)(?:#(\d+))? (!= ""|!= nil|== false|== true|!= 0)$`)
+
+func flagCause(fs []string, inHandlerOfMessage bool, viaHelper func(name string, ridx int, class string) string) string {
+	for _, f := range fs {
+		// a failed lookup in the complaints map is "nothing recorded yet", never a cause
+		if strings.Contains(f, "complaints[") && strings.HasSuffix(f, "#1 == false") {
+			continue
+		}
+		for _, p := range flagCausePatterns {
+			if matchRe(p, f) {
+				return f
+			}
+		}
+		if !inHandlerOfMessage && strings.HasSuffix(f, "Received == false") {
+			return f // a timeout handler finding that the message never came
+		}
+		// the verdict of a format / validity helper of the module: justified if every way the helper has of giving
+		// that verdict is itself one of the causes
+		if m := helperResultFact.FindStringSubmatch(f); m != nil && viaHelper != nil {
+			ridx := 0
+			if m[3] != "" {
+				ridx, _ = strconv.Atoi(m[3])
+			}
+			if c := viaHelper(m[1], ridx, m[4]); c != "" {
+				return f + " ⇐ " + c
+			}
+		}
+	}
+	return ""
+}
+
+// ruleFlagCauses: every FlagMisbehavior call below the handlers is justified on every path that reaches it: by the
+// innermost governing condition being of the allowed kinds, or (a disjunction) one on each edge into the block, or (a
+// helper / a thin wrapper around the processor call) at each of its call sites. "No record of that complaint yet" is
+// not a cause: the broadcast of a complaint and the dealer's answer can be delivered in either order.
+func (w *World) ruleFlagCauses(rule string, d *dkgAnchors) {
+	n := 0
+	isBytes := func(t types.Type) bool {
+		sl, ok := t.Underlying().(*types.Slice)
+		if !ok {
+			return false
+		}
+		b, ok := sl.Elem().Underlying().(*types.Basic)
+		return ok && b.Kind() == types.Uint8
+	}
+	hasMsg := func(fn *ssa.Function) bool {
+		for _, p := range fn.Params {
+			if isBytes(p.Type()) {
+				return true
+			}
+		}
+		return false
+	}
+	exprs := func(fs []Fact) []string {
+		var out []string
+		for _, f := range fs {
+			out = append(out, f.Expr)
+		}
+		sort.Strings(out)
+		return out
+	}
+	// innermost: the facts of the nearest branch edge that governs the instruction (the condition the author wrote
+	// immediately around the report); outer conditions are context, not the cause
+	innermost := func(ins ssa.Instruction) []Fact {
+		B := ins.Block()
+		for D := B.Idom(); D != nil; D = D.Idom() {
+			ifi, isIf := D.Instrs[len(D.Instrs)-1].(*ssa.If)
+			if !isIf || len(D.Succs) != 2 || D.Succs[0] == D.Succs[1] {
+				continue
+			}
+			for k, sc := range D.Succs {
+				if edgeDominates(D, sc, B) {
+					var extra []Fact
+					condFacts(ifi.Cond, k == 0, ifi, &extra)
+					extra = append(extra, w.expandSummaries(extra, 0)...)
+					return extra
+				}
+			}
+		}
+		return nil
+	}
+	var viaHelper func(name string, ridx int, class string) string
+	// causeAt: disjunction first (the site sits at or just below a join of several edges: each edge's own condition),
+	// otherwise the innermost governing condition
+	causeAt := func(ins ssa.Instruction, msgCtx bool) (string, []string) {
+		J := ins.Block()
+		for k := 0; k < 3 && len(J.Preds) == 1 && J.Preds[0].Instrs != nil; k++ {
+			if _, isIf := J.Preds[0].Instrs[len(J.Preds[0].Instrs)-1].(*ssa.If); isIf {
+				break
+			}
+			J = J.Preds[0]
+		}
+		var fs []string
+		if len(J.Preds) > 1 && J.Dominates(ins.Block()) {
+			all, first := true, ""
+			for _, p := range J.Preds {
+				last := p.Instrs[len(p.Instrs)-1]
+				var es []Fact
+				if ifi, isIf := last.(*ssa.If); isIf && len(p.Succs) == 2 && p.Succs[0] != p.Succs[1] {
+					condFacts(ifi.Cond, p.Succs[0] == J, ifi, &es)
+					es = append(es, w.expandSummaries(es, 0)...)
+				} else {
+					es = innermost(last)
+				}
+				c := flagCause(exprs(es), msgCtx, viaHelper)
+				if c == "" {
+					all = false
+					fs = append(fs, fmt.Sprintf("‹edge from line %d: %v›", w.Fset.Position(last.Pos()).Line, exprs(es)))
+				} else if first == "" {
+					first = c
+				}
+			}
+			if all {
+				return first + " (and a cause on every other edge)", fs
+			}
+			return "", fs
+		}
+		fs = exprs(innermost(ins))
+		return flagCause(fs, msgCtx, viaHelper), fs
+	}
+	helperMemo := map[string]string{}
+	viaHelper = func(name string, ridx int, class string) string {
+		key := fmt.Sprintf("%s/%d/%s", name, ridx, class)
+		if v, ok := helperMemo[key]; ok {
+			return v
+		}
+		helperMemo[key] = ""
+		var h *ssa.Function
+		for _, f := range w.srcFuncs(rootPath) {
+			if f.Name() == name && f.Blocks != nil && !isTestFile(w, f.Pos()) && (f.Object() == nil || !f.Object().Exported()) {
+				if h != nil {
+					return "" // ambiguous name
+				}
+				h = f
+			}
+		}
+		if h == nil {
+			return ""
+		}
+		isZero := func(v ssa.Value) bool {
+			k, ok := v.(*ssa.Const)
+			if !ok {
+				return false
+			}
+			if k.Value == nil {
+				return true
+			}
+			sv := k.Value.ExactString()
+			return sv == `""` || sv == "0" || sv == "false"
+		}
+		first, cnt := "", 0
+		for _, r := range returns(h) {
+			if ridx >= len(r.Results) {
+				return ""
+			}
+			res := r.Results[ridx]
+			inClass := false
+			switch class {
+			case `!= ""`, "!= nil", "!= 0":
+				inClass = !isZero(res)
+			case "== false":
+				inClass = isZero(res) || func() bool { _, c := res.(*ssa.Const); return !c }()
+			case "== true":
+				inClass = !isZero(res)
+			}
+			if !inClass {
+				continue
+			}
+			cnt++
+			c, _ := causeAt(r, true)
+			if c == "" {
+				return ""
+			}
+			if first == "" {
+				first = c
+			}
+		}
+		if cnt == 0 {
+			return ""
+		}
+		helperMemo[key] = fmt.Sprintf("every such result of %s: %s", name, first)
+		return helperMemo[key]
+	}
+	var siteCause func(ins ssa.Instruction, depth int) (string, []string)
+	siteCause = func(ins ssa.Instruction, depth int) (string, []string) {
+		fn := ins.Parent()
+		c, fs := causeAt(ins, hasMsg(fn))
+		if c != "" {
+			return c, fs
+		}
+		// a helper: justified at each call site
+		if depth < 2 && fn.Object() != nil && !fn.Object().Exported() {
+			callers := w.callersOfCached(fn)
+			if len(callers) > 0 {
+				all, first := true, ""
+				for _, cs := range callers {
+					if isTestFile(w, cs.Pos()) {
+						continue
+					}
+					c, cfs := siteCause(cs, depth+1)
+					if c == "" {
+						all = false
+						fs = append(fs, fmt.Sprintf("‹called from %s under %v›", cs.Parent().Name(), cfs))
+					} else if first == "" {
+						first = c
+					}
+				}
+				if all && first != "" {
+					return first + " (at every call site)", fs
+				}
+			}
+		}
+		return "", fs
+	}
+	inScope := func(fn *ssa.Function) bool {
+		if fn.Signature.Recv() == nil || isTestFile(w, fn.Pos()) {
+			return false
+		}
+		rt := deref(fn.Signature.Recv().Type())
+		return types.Identical(rt, d.plain) || types.Identical(rt, d.qual) || types.Identical(rt, d.common)
+	}
+	isFlagCall := func(ins ssa.Instruction) bool {
+		c, ok := ins.(ssa.CallInstruction)
+		return ok && c.Common().IsInvoke() && c.Common().Method.Name() == "FlagMisbehavior"
+	}
+	// thin wrappers: a branch-free method whose body reports its own parameter to the processor; its call sites are
+	// the flag sites
+	wrappers := map[*ssa.Function]bool{}
+	for _, fn := range w.srcFuncs(rootPath) {
+		if !inScope(fn) || len(fn.Blocks) != 1 {
+			continue
+		}
+		instrsFlat(fn, func(ins ssa.Instruction) {
+			if isFlagCall(ins) {
+				wrappers[fn] = true
+			}
+		})
+	}
+	for _, fn := range w.srcFuncs(rootPath) {
+		if !inScope(fn) || wrappers[fn] {
+			continue
+		}
+		seen := map[string]int{}
+		instrsFlat(fn, func(ins ssa.Instruction) {
+			who := ""
+			if isFlagCall(ins) {
+				c := ins.(ssa.CallInstruction)
+				if len(c.Common().Args) > 0 {
+					who = render(c.Common().Args[0])
+				}
+			} else if c, ok := ins.(*ssa.Call); ok && c.Call.StaticCallee() != nil && wrappers[c.Call.StaticCallee()] {
+				if len(c.Call.Args) > 1 {
+					who = render(c.Call.Args[1])
+				}
+			} else {
+				return
+			}
+			n++
+			who = strings.TrimSuffix(strings.TrimPrefix(who, "int("), ")")
+			seen[who]++
+			key := fmt.Sprintf("%s/flag(%s)#%d", fnKey(fn), who, seen[who])
+			okc, fs := siteCause(ins, 0)
+			if os.Getenv("CL_DEBUG_FLAGS") != "" {
+				fmt.Fprintf(os.Stderr, "FLAG %s cause=%q facts=%v\n", key, okc, fs)
+			}
+			w.check(okc != "", rule, key, ins.Pos(), "flag justified by `"+okc+"`", fmt.Sprintf("%s reports participant `%s` to the processor under the conditions %v, none of which is something an honest sender cannot produce (a duplicate, a late message, a wrong size or tag, a refused value, a failed check): e.g. with a complaint and its answer delivered in the other order an honest participant is flagged", fn.Name(), who, fs))
+		})
+	}
+	if n == 0 {
+		w.undecided(rule, "anchor:flag-sites", token.NoPos, "no FlagMisbehavior call found in the DKG state types")
+	}
+}
+
+var reCache = map[string]*regexp.Regexp{}
+
+func matchRe(p, s string) bool {
+	r, ok := reCache[p]
+	if !ok {
+		r = regexp.MustCompile(p)
+		reCache[p] = r
+	}
+	return r.MatchString(s)
+}
+
+// ruleErrorClassKept (C10.R7): the three protocols answer the same refusal with the same error class, also through
+// the Joint-Feldman relay: an error a DKG method receives from another DKG object (or any callee) and hands on inside
+// fmt.Errorf is wrapped with %w — with %v / %s the message survives but IsInvalidInputsError /
+// IsDKGInvalidStateTransitionError / IsDKGFailureError no longer recognise it, so the joint protocol reports "some
+// error" where the single-dealer protocols report the documented class.
+func (w *World) ruleErrorClassKept(rule string, d *dkgAnchors) {
+	errT := types.Universe.Lookup("error").Type()
+	n := 0
+	for _, fn := range w.srcFuncs(rootPath) {
+		if fn.Signature.Recv() == nil || isTestFile(w, fn.Pos()) {
+			continue
+		}
+		rt := deref(fn.Signature.Recv().Type())
+		if !(types.Identical(rt, d.plain) || types.Identical(rt, d.qual) || types.Identical(rt, d.joint) || types.Identical(rt, d.common)) {
+			continue
+		}
+		seen := 0
+		instrsFlat(fn, func(ins ssa.Instruction) {
+			c, ok := ins.(*ssa.Call)
+			if !ok || c.Call.StaticCallee() == nil || c.Call.StaticCallee().String() != "fmt.Errorf" || len(c.Call.Args) < 2 {
+				return
+			}
+			k, isC := c.Call.Args[0].(*ssa.Const)
+			if !isC || k.Value == nil {
+				return
+			}
+			format, _ := constString(k.Value)
+			// the variadic slice: elements stored into a fresh array
+			var args []ssa.Value
+			if sl, ok := c.Call.Args[1].(*ssa.Slice); ok {
+				if al, ok := sl.X.(*ssa.Alloc); ok {
+					idx := map[int]ssa.Value{}
+					for _, r := range *al.Referrers() {
+						if ia, ok := r.(*ssa.IndexAddr); ok {
+							if ik, ok := ia.Index.(*ssa.Const); ok {
+								for _, r2 := range *ia.Referrers() {
+									if st, ok := r2.(*ssa.Store); ok && st.Addr == ia {
+										i64, _ := constInt64(ik.Value)
+										idx[int(i64)] = st.Val
+									}
+								}
+							}
+						}
+					}
+					for i := 0; i < len(idx); i++ {
+						args = append(args, idx[i])
+					}
+				}
+			}
+			// verbs in order
+			var verbs []byte
+			for i := 0; i < len(format); i++ {
+				if format[i] != '%' {
+					continue
+				}
+				j := i + 1
+				for j < len(format) && strings.IndexByte("+-# 0123456789.*[]", format[j]) >= 0 {
+					j++
+				}
+				if j < len(format) {
+					if format[j] != '%' {
+						verbs = append(verbs, format[j])
+					}
+					i = j
+				}
+			}
+			for i, a := range args {
+				v := a
+				if ci, ok := v.(*ssa.ChangeInterface); ok {
+					v = ci.X
+				}
+				if v == nil {
+					continue
+				}
+				if mi, ok := v.(*ssa.MakeInterface); ok {
+					// a concrete error value (module error types implement error)
+					if !types.Implements(mi.X.Type(), errT.Underlying().(*types.Interface)) {
+						continue
+					}
+					v = mi.X
+				} else if !types.Identical(v.Type(), errT) {
+					continue
+				}
+				n++
+				seen++
+				verb := byte('?')
+				if i < len(verbs) {
+					verb = verbs[i]
+				}
+				w.check(verb == 'w', rule, fmt.Sprintf("%s/errorf-wraps#%d", fnKey(fn), seen), c.Pos(), "the error handed on keeps its class (%w)", fmt.Sprintf("%s formats the error `%s` with %%%c instead of %%w: the class of the refusal (invalid input / invalid state transition / DKG failure) is lost for the caller, who gets a different answer from this protocol than from its siblings for the same call", fn.Name(), render(v), verb))
+			}
+		})
+	}
+	if n == 0 {
+		w.undecided(rule, "anchor:errorf-sites", token.NoPos, "no fmt.Errorf that hands an error on was found in the DKG state types")
 	}
 }
